@@ -112,6 +112,9 @@ type vfMOp struct {
 	Meta   map[string]vfMVal `json:"meta,omitempty"`
 	Entry  string            `json:"entry,omitempty"` // filters | groups | builder
 	Groups [][]vfMFilter     `json:"groups,omitempty"`
+	// entry "groups": OrInside[g] makes group g a FilterGroup{Logic: OR} (the library's other group
+	// logic: any filter of the group suffices); groups are still OR-ed with each other
+	OrInside []bool `json:"or_inside,omitempty"`
 }
 
 type vfC04Case struct {
@@ -326,6 +329,7 @@ func vfC04Gen(rt *rapid.T) vfC04Case {
 					prevFilters = append(prevFilters, grp[len(grp)-1])
 				}
 				op.Groups = append(op.Groups, grp)
+				op.OrInside = append(op.OrInside, op.Entry == "groups" && len(grp) >= 2 && rapid.IntRange(0, 3).Draw(rt, "or_inside_group") == 0)
 			}
 			return op
 		}
@@ -405,18 +409,32 @@ func vfEvalFilter(f *vfMFilter, doc map[string]vfMVal) bool {
 }
 
 func (m *vfMetaModel) eval(groups [][]vfMFilter, entry string) []uint32 {
+	return m.evalLogic(groups, nil)
+}
+
+func (m *vfMetaModel) evalLogic(groups [][]vfMFilter, orInside []bool) []uint32 {
 	var out []uint32
 	for id, doc := range m.docs {
 		ok := false
 		if len(groups) == 0 {
 			ok = true
 		}
-		for _, g := range groups {
+		for gi, g := range groups {
 			all := true
-			for i := range g {
-				if !vfEvalFilter(&g[i], doc) {
-					all = false
-					break
+			if gi < len(orInside) && orInside[gi] && len(g) >= 2 {
+				all = false
+				for i := range g {
+					if vfEvalFilter(&g[i], doc) {
+						all = true
+						break
+					}
+				}
+			} else {
+				for i := range g {
+					if !vfEvalFilter(&g[i], doc) {
+						all = false
+						break
+					}
 				}
 			}
 			if all {
@@ -537,8 +555,11 @@ func vfRunMetaSearch(idx MetadataIndex, op *vfMOp) ([]uint32, error) {
 		return vfMetaIDs(r), err
 	case "groups":
 		var gs []*FilterGroup
-		for _, g := range op.Groups {
+		for gi, g := range op.Groups {
 			fg := &FilterGroup{Logic: AND}
+			if gi < len(op.OrInside) && op.OrInside[gi] && len(g) >= 2 {
+				fg.Logic = OR
+			}
 			for i := range g {
 				fg.Filters = append(fg.Filters, vfToFilter(&g[i]))
 			}
@@ -650,7 +671,14 @@ func vfC04Run(c vfC04Case, ctx *vfCtx) *vfViolation {
 			if err != nil {
 				return vfFail("op %d: search %s via %s failed: %v", i, expr, op.Entry, err)
 			}
-			want := m.eval(groups, op.Entry)
+			var orFlags []bool
+			if op.Entry == "groups" {
+				orFlags = op.OrInside
+			}
+			want := m.evalLogic(groups, orFlags)
+			for _, o := range orFlags {
+				ctx.ClassIf(o, "group_with_OR_logic_inside")
+			}
 			if fmt.Sprint(got) != fmt.Sprint(want) {
 				if crossTyped {
 					return vfFailAttr(vfKF3, "op %d: search %s via %s over %d live documents returned ids %v, ordinary comparison selects %v (an operand has the other numeric Go type than the field's values); documents: %s", i, expr, op.Entry, len(m.docs), got, want, vfDescribeDocs(m, got, want))
